@@ -242,10 +242,11 @@ func (i *Int) Neg(a kyber.Scalar) kyber.Scalar {
 	if !ok {
 		panic("invalid argument")
 	}
-	newNat.Int = *ai.M.Nat()
-	i.V.Set(newNat)
+	// 0 - a mod M: subtracting from M itself is not reduced for a = 0,
+	// and writing M into i.V first destroys a when i == a
+	newNat = newNat.Mod(compatible.NewInt(0), ai.M)
 	i.M = ai.M
-	i.V = *compatible.NewInt(0).Sub(&i.V, &ai.V, i.M)
+	i.V = *compatible.NewInt(0).Sub(newNat, &ai.V, i.M)
 
 	return i
 }
